@@ -459,7 +459,7 @@ func runC19(c *Cfg) {
 		checkGetters(flyt.NewFlow(flyt.NewNode()), none, add, "NewFlow")
 		r.Count("defaults.constructors", 4)
 	}
-	maxLen := c.Pick(3, 4)
+	maxLen := c.Pick(3, 5)
 	syms := numSettings * 2
 	type job struct {
 		length, idx int
@@ -484,7 +484,7 @@ func runC19(c *Cfg) {
 	})
 	r.Exhaustive = true
 	r.Note(fmt.Sprintf("all setting sequences up to length %d over 8 setting kinds x 2 values, every option/builder split, plain and batch builders: %d sequences; the length-6 space (~1.7e7 sequences x 7 splits) is sampled, not enumerated", maxLen, total))
-	n := c.Pick(50000, 1000000)
+	n := c.Pick(50000, 3000000)
 	parallel(c, n, func(i int) {
 		rg := c.Rng("c19", i)
 		l := 5 + rg.IntN(2)
